@@ -36,6 +36,15 @@ pub fn builtin() -> Vec<(&'static str, String)> {
     ));
     let wide: Vec<String> = (0..130).map(|i| if i % 3 == 0 { format!("string({})", i) } else if i % 3 == 1 { format!("float({})", i) } else { format!("[{}]", i) }).collect();
     out.push(("wide-array-of-fresh-values", format!("functie f() {{ 0 }}; stel w = [{}]; f(); f(); w", wide.join(", "))));
+    // thousands of managed objects at one collection (thresholds at 1024 / 2048 / 4096 objects), cheap in
+    // steps: one literal with fresh elements, collections while it is alive, a value made afterwards
+    for n in [1500usize, 3500] {
+        let wide: Vec<String> = (0..n).map(|i| if i % 2 == 0 { format!("string({})", i) } else { format!("float({})", i) }).collect();
+        out.push((
+            if n == 1500 { "array-of-1500-fresh-values" } else { "array-of-3500-fresh-values" },
+            format!("functie f() {{ 0 }}; stel w = [{}]; f(); stel laat = [string(7), 2.5 + 1.0]; f(); f(); [laat, w[0], w[{}], lengte(w)]", wide.join(", "), n - 1),
+        ));
+    }
     let pending: Vec<String> = (0..220).map(|i| format!("g({})", i)).collect();
     out.push(("hundreds-of-pending-operands", format!("functie g(n) {{ string(n) }}; [{}]", pending.join(", "))));
     let long: String = (0..300).map(|i| char::from(b'a' + (i % 26) as u8)).collect();
